@@ -17,8 +17,10 @@ LEVEL = ('narrow: decides four code-shape facts two of whose violations were con
          'test (H8 SIBLINGS); the gap profile between two profiles is created iff the gap is non-empty'
          ' and covered by the update range (H9 TABLE); the cached profile explanation is reset per '
          'profile (H10). the time point of a pointwise hole explanation lies in the profile and in the'
-         " task's run (H11 WITNESS-POINT, decided on a window). Everything else about the 144 variants"
-         ' — in particular the numbers they compute and zero-duration tasks — is NOT decided')
+         " task's run (H11 WITNESS-POINT, decided on a window). incremental insertion handles gap and "
+         'overlap for every overlapped profile (H13 MUST-PASS on the loop); reasons assembled from '
+         'several profiles are the union of their parts (H14 = C17-L21). Everything else about the 144'
+         ' variants — in particular the numbers they compute and zero-duration tasks — is NOT decided')
 TECHNIQUE = "static analysis: must-pass / sentinel taint / dominance rules over rustc MIR"
 
 
